@@ -36,7 +36,7 @@ fn check(t: &mut Tape, ctx: &mut Ctx) -> CheckResult {
 }
 
 /// optic table whose residual depends on the operation label only
-fn optic_table(t: &mut Tape, al: gen::Alpha, keys: &std::collections::BTreeSet<OpKey>, singletons: bool, ctx: &mut Ctx) -> OpticTable {
+pub fn optic_table(t: &mut Tape, al: gen::Alpha, keys: &std::collections::BTreeSet<OpKey>, singletons: bool, ctx: &mut Ctx) -> OpticTable {
     let fobj = gen::object_map(t, al.nl, al.nl, 2);
     let robj = gen::object_map(t, al.nl, al.nl, 2);
     let res_by_label: Vec<Vec<u32>> = (0..al.el.max(1)).map(|_| (0..t.choice(3)).map(|_| t.choice(al.nl) as u32).collect()).collect();
